@@ -2,6 +2,7 @@ package main
 
 import (
 	"go/constant"
+	"sort"
 	"go/types"
 	"strings"
 
@@ -216,6 +217,19 @@ func checkCLIFiles(p *Program, r *Result) {
 				}
 			}
 		}
+	}
+
+	// absPath itself: filepath.Abs(name) when it succeeds, else the name unchanged
+	if ap := r.anchor(pkgCmdAge, "", "absPath"); ap != nil {
+		atb := p.TB(ap)
+		var got []string
+		for _, ret := range returnsOf(ap) {
+			got = append(got, "["+sortedFacts(atb.FactsAt(ret.Block()))+"] -> "+short(atb.Term(ret.Results[0]).String()))
+		}
+		sort.Strings(got)
+		g := strings.Join(got, " | ")
+		want := specRecipe(r, "cmd/age.absPath")
+		r.Check(g == want, ap.String(), "same-file:absPath", "", g, "absPath no longer normalises every spelling through filepath.Abs\n   got  "+g+"\n   want "+want)
 	}
 
 	// ---- R15.4
